@@ -17,7 +17,7 @@ TABLE = {m: 's_' + m for m in STR_METHODS + TIME_METHODS}
 for _m in ('contains', 'starts_with', 'ends_with', 'to_lowercase', 'to_uppercase', 'split', 'rsplit', 'len'):
     TABLE[_m] = ('s_' + _m, 'ref')     # std takes &self: the receiver stays usable afterwards
 TABLE['is_char_boundary'] = ('s_is_char_boundary', 'ref')
-TABLE['chars'] = ('s_chars', 'ref')      # not used by the code today: a changed wrapper that counts characters type-checks and then fails its contract
+TABLE['chars'] = ('s_char_items', 'ref')      # not used by the code today: a changed wrapper that counts characters type-checks and then fails its contract
 TABLE['count'] = 's_count'
 TABLE['bytes'] = ('s_bytes', 'ref')
 TABLE['map_err'] = 's_map_err'
@@ -57,7 +57,7 @@ pub open spec fn strs_as_values(p: Seq<Seq<char>>, v: Seq<CelValue>) -> bool {
 #[verifier::external_body] pub fn s_collect(p: MappedPieces) -> (r: Vec<CelValue>) ensures strs_as_values(p@, r@) { unimplemented!() }
 #[verifier::external_body] pub struct CharsIt { _p: u8 }
 impl CharsIt { pub uninterp spec fn n(&self) -> nat; }
-#[verifier::external_body] pub fn s_chars(s: &String) -> (r: CharsIt) ensures r.n() == s@.len() { unimplemented!() }      // one item per character
+#[verifier::external_body] pub fn s_char_items(s: &String) -> (r: CharsIt) ensures r.n() == s@.len() { unimplemented!() }      // one item per character
 #[verifier::external_body] pub fn s_bytes(s: &String) -> (r: CharsIt) ensures r.n() == utf8_len(s@) { unimplemented!() }  // one item per UTF-8 byte
 #[verifier::external_body] pub fn s_count(c: CharsIt) -> (r: usize) ensures r == c.n() { unimplemented!() }
 pub uninterp spec fn char_boundary(s: Seq<char>, at: usize) -> bool;       // `at` is 0, the byte length, or the first byte of a character
